@@ -61,7 +61,12 @@ func TestC11(t *testing.T) {
 	for r := 0; r < rounds; r++ {
 		M := 2 + rng.Intn(11)
 		N := 2 + rng.Intn(23)
-		rep.Journal(map[string]interface{}{"round": r, "mockers": M, "callers": N, "crashkey": "C11/crash"})
+		entries := map[string]uintptr{}
+		for k := range Steady {
+			entries[fmt.Sprintf("github.com/tencent/goom/zzverif/c11.S%d", k)] = vmon.FuncCodePtr(Steady[k])
+			entries[fmt.Sprintf("github.com/tencent/goom/zzverif/c11.H%d", k)] = vmon.FuncCodePtr(Hot[k])
+		}
+		rep.Journal(map[string]interface{}{"round": r, "mockers": M, "callers": N, "crashkey": "C11/crash", "entries": entries})
 		rep.JournalSync()
 		// steady mocks, installed before any concurrency
 		sb := mocker.Create()
